@@ -70,7 +70,28 @@ func (e *emitter) op(name string, args ...string) string {
 				break
 			}
 		}
+		// results registered with retainDetached must not share storage with the op's input buffers: the caller's receive
+		// buffer is reused for the next message. All input buffers of this op are overwritten, then the results are read again.
+		detached := false
+		for _, k := range keptCur {
+			detached = detached || k.detached
+		}
+		if detached {
+			for _, b := range inputBufs {
+				full := b[:cap(b)]
+				for i := range full {
+					full[i] = 0xee
+				}
+			}
+			for _, k := range keptCur {
+				if k.detached && guardT(2*time.Second, k.live) != k.snap {
+					res += " ALIASED:input-of-" + name
+					break
+				}
+			}
+		}
 	}
+	inputBufs = nil
 	// what the PREVIOUS op handed out must still be what it was (no package-level buffer, no shared backing array)
 	if res != "hang" {
 		for i, k := range keptPrev {
@@ -128,6 +149,16 @@ func (e *emitter) replaySample() {
 type kept struct {
 	op, snap string
 	live     func() string
+	detached bool // must not alias the op's input buffers either
+}
+
+// inputBufs: the byte-slice arguments created for the current op (args.go aHex)
+var inputBufs [][]byte
+
+// retainDetached: as retain, and the object must also be independent of the op's INPUT buffers (a decoded message that
+// points into the octets it was decoded from changes when the caller reuses its receive buffer)
+func retainDetached(live func() string) {
+	keptCur = append(keptCur, kept{curOpName, live(), live, true})
 }
 
 var (
@@ -152,7 +183,7 @@ func constArg(b []byte) []byte {
 }
 
 func retain(live func() string) {
-	keptCur = append(keptCur, kept{curOpName, live(), live})
+	keptCur = append(keptCur, kept{curOpName, live(), live, false})
 }
 
 // retainBytes registers a byte slice returned by the implementation and returns it
